@@ -276,6 +276,7 @@ func checkC01(c *Ctx) {
 	checkC01SelectBind(c)
 	checkC01JoinConds(c)
 	checkC01ExprCopy(c)
+	checkC01ArgsUsed(c)
 	ro := c.Rule("C01.once", "ONCE(loop over a value slice, AddVar); empty-slice arms write NULL or bind nil", 8)
 	for _, f := range p.FuncsOf(pkgClause, pkgGorm) {
 		root := rootFunc(f)
